@@ -574,19 +574,29 @@ fn c05_case(ctx: &Ctx, case: u64, acc: &mut Acc) -> Verdict {
             return Err(V::new("C05/not-converged", format!("{what}: {} periods after the heal these (who, misses whom) pairs remain: {missing:?}", bound_periods + 6)));
         }
     }
-    // every instance that was told it is down renewed (never Defunct) and reported Active afterwards
+    // let in-flight reactions settle, then the view must still be complete
+    let t_settle = f.sim.now + 3 * p;
+    f.sim.run_until(t_settle, acc, &mut nop)?;
+    ensure!(f.sim.full_view(), "C05/view-lost-again", "{what}: the full view was reached but lost again within 3 periods");
+    // every instance that was told it is down renewed (never Defunct) with a winning identity and reported Active afterwards
     let mut renewed = 0;
     for (i, x) in f.sim.nodes.iter().enumerate() {
         ensure!(!x.notes.iter().any(|(_, nn)| *nn == N::Defunct), "C05/defunct", "{what}: instance {i} went Defunct");
-        let rejoins: Vec<(usize, &Id)> = x.notes.iter().enumerate().filter_map(|(k, (_, nn))| if let N::Rejoin(id) = nn { Some((k, id)) } else { None }).collect();
-        let told = x.notes.iter().any(|(_, nn)| matches!(nn, N::Rejoin(_)));
-        if x.node.id() != ids_before[i] || told {
-            renewed += 1;
-            let (k, id) = *rejoins.last().expect("rejoin");
-            ensure!(*id == x.node.id() && id.gen > ids_before[i].gen && id.addr == ids_before[i].addr, "C05/rejoin-identity", "{what}: instance {i} went {:?} -> {:?}, Rejoin({id:?})", ids_before[i], x.node.id());
-            ensure!(x.notes[k..].iter().any(|(_, nn)| *nn == N::Active), "C05/no-active-after-rejoin", "{what}: instance {i} never reported Active after Rejoin");
+        let mut cur = Id::new(i as u16, 0);
+        let mut last_rejoin: Option<usize> = None;
+        for (k, (_, nn)) in x.notes.iter().enumerate() {
+            if let N::Rejoin(id) = nn {
+                ensure!(id.addr == cur.addr && id.gen > cur.gen, "C05/rejoin-identity", "{what}: instance {i} reported Rejoin({id:?}) while being {cur:?}");
+                cur = *id;
+                last_rejoin = Some(k);
+            }
         }
-        ensure!(x.node.id().gen <= ids_before[i].gen.saturating_add(3), "C05/renewal-storm", "{what}: instance {i} renewed {} times", x.node.id().gen - ids_before[i].gen);
+        ensure!(x.node.id() == cur, "C05/rejoin-identity", "{what}: instance {i} is {:?} but its Rejoin notifications end at {cur:?}", x.node.id());
+        if let Some(k) = last_rejoin {
+            renewed += 1;
+            ensure!(x.notes[k..].iter().any(|(_, nn)| *nn == N::Active), "C05/no-active-after-rejoin", "{what}: instance {i} never reported Active after its last Rejoin");
+        }
+        ensure!(cur.gen <= ids_before[i].gen.saturating_add(3), "C05/renewal-storm", "{what}: instance {i} renewed {} times after the heal", cur.gen - ids_before[i].gen);
     }
     f.sim.tally_into(acc);
     acc.tally("partitions_healed", 1);
